@@ -15,6 +15,7 @@ structure RuleOut where
   flags : Flags
   twoWay : Bool
   isVer : Bool
+  isProd : Bool := false
 deriving Repr, Inhabited
 
 structure Universe where
